@@ -120,9 +120,24 @@ func c14(c *Ctx) {
 			}
 		}
 		// the same tests or-combined into a local boolean
-		var autoVals []ssa.Value
+		var autoVals, manualVals []ssa.Value
 		for _, b := range rec.Blocks {
 			for _, in := range b.Instrs {
+				// … or their negations and-combined (`manual := p != nil && *p != Automatic`)
+				if bo, ok := in.(*ssa.BinOp); ok && bo.Op == token.NEQ {
+					isMan := cfgx.IsNilConst(bo.Y) && hasSuffixCall(bo.X, ".GetActivationPolicy")
+					if s, ok := cfgx.ConstString(bo.Y); ok && s == "Automatic" {
+						isMan = true
+					}
+					if ld, ok := bo.Y.(*ssa.UnOp); ok && ld.Op == token.MUL {
+						if g, ok := ld.X.(*ssa.Global); ok && g.Name() == "AutomaticActivation" {
+							isMan = true
+						}
+					}
+					if isMan {
+						manualVals = append(manualVals, bo)
+					}
+				}
 				if bo, ok := in.(*ssa.BinOp); ok && bo.Op == token.EQL {
 					isAuto := false
 					if cfgx.IsNilConst(bo.Y) && hasSuffixCall(bo.X, ".GetActivationPolicy") {
@@ -143,6 +158,7 @@ func c14(c *Ctx) {
 			}
 		}
 		auto = append(auto, boolDisjTrueEdges(rec, autoVals)...)
+		auto = append(auto, boolConjFalseEdges(rec, manualVals)...)
 		n := 0
 		for _, x := range cfgx.Calls(rec, nil) {
 			if strings.HasSuffix(cfgx.CalleeName(x), ".SetDesiredState") {
